@@ -353,3 +353,63 @@ Proof.
   - destruct st; cbn; intros H; inversion H; auto.
   - destruct st, t; cbn [emit pre snd]; intros H; try (now apply IH in H); inversion H; auto.
 Qed.
+
+(* ------------------------------------------------------------------ exact characterisation of the error branches *)
+Lemma ncolon_snoc l t : ncolon (l ++ [t]) = (ncolon l + if is_colon t then 1 else 0)%nat.
+Proof. unfold ncolon. rewrite filter_app, app_length. cbn. destruct (is_colon t); reflexivity. Qed.
+
+Lemma many_colons r : forall cur, (2 <= ncolon cur)%nat ->
+  first_err (fst (split_lines r cur)) (snd (split_lines r cur)) = Some (EUnexpected TColon).
+Proof.
+  induction r as [|t r IH]; intros cur H.
+  - cbn. unfold tail_err. destruct (ncolon cur) as [|[|n]]; try lia. reflexivity.
+  - destruct t; cbn [split_lines]; try (apply IH; rewrite ncolon_snoc; cbn; lia).
+    cbn [fst snd first_err]. unfold line_err. destruct (ncolon cur) as [|[|n]]; try lia. reflexivity.
+Qed.
+
+(* what the state of emit_deps remembers about the current line *)
+Definition Rel (st : dstate) (cur : list tok) : Prop :=
+  match st with
+  | DTarget => ncolon cur = O /\ last cur (TChar 0) <> TSpace
+  | DBetweenTargets => ncolon cur = O /\ last cur (TChar 0) = TSpace
+  | _ => ncolon cur = 1%nat
+  end.
+
+Lemma emit_spec ts : forall st cur, Rel st cur ->
+  snd (emit st ts) = first_err (fst (split_lines ts cur)) (snd (split_lines ts cur)).
+Proof.
+  induction ts as [|t r IH]; intros st cur HR.
+  - cbn [emit snd split_lines fst first_err]. unfold tail_err.
+    destruct st; cbn [Rel] in HR.
+    + destruct HR as [H1 H2]. rewrite H1. destruct (last cur (TChar 0)); try reflexivity. congruence.
+    + destruct HR as [H1 H2]. rewrite H1, H2. reflexivity.
+    + rewrite HR. reflexivity.
+    + rewrite HR. reflexivity.
+  - destruct t as [c| | |].
+    + (* a word character *)
+      cbn [split_lines]. destruct st; cbn [emit pre snd]; apply IH; cbn [Rel] in *;
+        rewrite ?ncolon_snoc, ?last_last; cbn [is_colon]; try lia.
+      * destruct HR as [H1 _]. split; [lia|discriminate].
+      * destruct HR as [H1 _]. split; [lia|discriminate].
+    + (* a separator colon *)
+      cbn [split_lines]. destruct st; cbn [emit pre snd].
+      * apply IH. cbn [Rel] in *. rewrite ncolon_snoc. cbn [is_colon]. lia.
+      * apply IH. cbn [Rel] in *. rewrite ncolon_snoc. cbn [is_colon]. lia.
+      * symmetry. apply many_colons. cbn [Rel] in HR. rewrite ncolon_snoc. cbn [is_colon]. lia.
+      * symmetry. apply many_colons. cbn [Rel] in HR. rewrite ncolon_snoc. cbn [is_colon]. lia.
+    + (* a blank *)
+      cbn [split_lines]. destruct st; cbn [emit pre snd]; apply IH; cbn [Rel] in *;
+        rewrite ?ncolon_snoc, ?last_last; cbn [is_colon]; try lia.
+      * destruct HR as [H1 _]. split; [lia|reflexivity].
+      * destruct HR as [H1 _]. split; [lia|reflexivity].
+    + (* end of line *)
+      cbn [split_lines fst snd first_err]. unfold line_err. destruct st; cbn [emit pre snd]; cbn [Rel] in HR.
+      * destruct HR as [H1 _]. now rewrite H1.
+      * destruct HR as [H1 _]. now rewrite H1.
+      * rewrite HR. apply IH. cbn. split; [reflexivity|discriminate].
+      * rewrite HR. apply IH. cbn. split; [reflexivity|discriminate].
+Qed.
+
+(* emit_deps raises exactly the error the line-by-line reading predicts (None = no exception) *)
+Theorem emit_deps_err_spec s : snd (emit_deps s) = depfile_err s.
+Proof. unfold emit_deps, depfile_err. apply emit_spec. cbn. split; [reflexivity|discriminate]. Qed.
